@@ -121,3 +121,36 @@ func VerifC03NearDuplicates() {
 	vAssert(vStackSame(m.Sample[1], b.Sample[0]), "C03.nd.frames: the second stack's frame attributes were altered")
 	vObserve(len(m.Location), len(m.Function), len(m.Mapping))
 }
+
+func init() { vRegister("VerifC12FreshIDs", VerifC12FreshIDs) }
+
+// VerifC12FreshIDs (property C12): the ids handed out for functions added by
+// symbolization are non-zero, unused by the profile and distinct, for every
+// function table - dense, sparse, out of order, huge ids.
+func VerifC12FreshIDs() {
+	n := 1 + vChoice("nfuncs", vBound("c12.funcs", 3))
+	p := &Profile{}
+	for i := 0; i < n; i++ {
+		id := vUint64("id" + string(rune('0'+i)))
+		vAssume(id != 0)
+		for _, f := range p.Function {
+			vAssume(f.ID != id)
+		}
+		p.Function = append(p.Function, &Function{ID: id, Name: "f" + string(rune('0'+i))})
+	}
+	next := UnusedFunctionIDs(p)
+	var fresh []uint64
+	for k := 0; k < 3; k++ {
+		id := next()
+		ok := id != 0
+		for _, f := range p.Function {
+			ok = vAnd(ok, f.ID != id)
+		}
+		for _, g := range fresh {
+			ok = vAnd(ok, g != id)
+		}
+		vAssert(ok, "C12.freshid: a function id handed out for a new function is zero, already used by the profile, or was handed out before")
+		fresh = append(fresh, id)
+	}
+	vObserve(fresh[0], fresh[1], fresh[2])
+}
